@@ -228,11 +228,19 @@ class System:
 
         mf = self.mf(mfkind, eri)
         obj = (cc.CCSD if kind == "ccsd" else cc.UCCSD)(mf, frozen=frozen if frozen else None)
-        obj.conv_tol = 1e-10
-        obj.conv_tol_normt = 1e-8
+        obj.conv_tol = 1e-9
+        obj.conv_tol_normt = 1e-7
         obj.max_cycle = 300
         obj.verbose = 0
-        obj.kernel()
+        try:
+            obj.kernel()
+        except (np.linalg.LinAlgError, AttributeError):
+            # pyscf's DIIS hits a singular B matrix once the amplitudes stop changing (its fallback is broken under
+            # numpy 2.5); plain damped iterations instead.  Convergence does not matter for the oracle: the mixed energy
+            # of the written amplitudes must equal pyscf's energy functional AT those amplitudes, converged or not.
+            obj.diis = None
+            obj.iterative_damping = 0.9
+            obj.kernel()
         # pyscf's own energy functional at exactly the amplitudes handed to the interface
         e_ref = float(obj.e_hf) + float(obj.energy(obj.t1, obj.t2, obj.ao2mo()))
         self._cc[key] = (obj, e_ref)
@@ -273,12 +281,18 @@ def frozen_core_reduce(h0, h1, eri, nc):
     return float(e), heff[a, a], eri[a, a, a, a]
 
 
-def lowest_eigenvalue(h0, h1, eri, norb, nelec):
-    """Lowest eigenvalue in the (n_up, n_dn) sector with pyscf's FCI machinery (dense when small)."""
+def lowest_eigenvalue(h0, h1, eri, norb, nelec, rot=None):
+    """Lowest eigenvalue in the (n_up, n_dn) sector with pyscf's FCI machinery (dense when small).
+
+    rot: optional orthogonal matrix; for the large spaces the integrals are first rotated by it (to the
+    mean-field orbitals) -- the spectrum is invariant, Davidson just needs a diagonally dominant basis."""
     from pyscf import fci
 
     na, nb = nelec
     dim = comb(norb, na) * comb(norb, nb)
+    if rot is not None and dim > 1300 and np.abs(rot.T @ rot - np.eye(norb)).max() < 1e-8:
+        h1 = rot.T @ h1 @ rot
+        eri = np.einsum("pqrs,pi,qj,rk,sl->ijkl", eri, rot, rot, rot, rot, optimize=True)
     h1 = np.ascontiguousarray(h1)
     eri = np.ascontiguousarray(eri)
     if dim == 1:
@@ -730,6 +744,12 @@ def eval_cell(cell, sysobj, seed, res=None, tmp_root=None):
     ccobj = e_cc = amps = None
     if cell["cc"]:
         ccobj, e_cc = sysobj.cc(cell["cc"], cell["mf"], cell["eri"], fr)
+        flat = np.concatenate([np.ravel(x) for x in (list(ccobj.t1) if cell["cc"] == "uccsd" else [ccobj.t1])] +
+                              [np.ravel(x) for x in (list(ccobj.t2) if cell["cc"] == "uccsd" else [ccobj.t2])])
+        if not (np.isfinite(e_cc) and np.all(np.isfinite(flat)) and np.abs(flat).max() < 1e3):
+            # pyscf's CC iteration diverged (quasi-degenerate reference): there are no amplitudes to hand over
+            res.guard("outside_domain_pyscf_cc_diverged")
+            return viol, {}
         if cell["cc"] == "ccsd":
             t1, t2 = np.asarray(ccobj.t1), np.asarray(ccobj.t2)
             amps = dict(kind="ccsd", t1=t1, tau=t2 + np.einsum("ia,jb->ijab", t1, t1))
@@ -754,8 +774,10 @@ def eval_cell(cell, sysobj, seed, res=None, tmp_root=None):
     nact = r_h1.shape[0]
     # the exact energy depends on the orbital basis only through the frozen core and the spanned space
     fkey = (cell["eri"], fr, cell["mf"] if (fr or cell["bas"] == "trunc") else None, cell["bas"] == "trunc")
+    # written basis -> mean-field orbitals of the same active space (orthogonal; used only to precondition Davidson)
+    to_mo = B[:, fr:].T @ sysobj.S @ Call[0][:, fr:fr + nact]
     if fkey not in sysobj._fci:
-        sysobj._fci[fkey] = lowest_eigenvalue(r_h0, r_h1, r_eri, nact, (na_act, nb_act))
+        sysobj._fci[fkey] = lowest_eigenvalue(r_h0, r_h1, r_eri, nact, (na_act, nb_act), rot=to_mo)
     e_fci_ref = sysobj._fci[fkey]
 
     # can a restricted walker (one orbital set, beta = leading columns) represent the SCF determinant?
@@ -815,7 +837,7 @@ def eval_cell(cell, sysobj, seed, res=None, tmp_root=None):
             return None
         fci_ok = None
         if header[1] == nact and header[0] == na_act + nb_act:
-            e_fci_w = lowest_eigenvalue(w_h0, hsym, w_eri, nact, (na_act, nb_act))
+            e_fci_w = lowest_eigenvalue(w_h0, hsym, w_eri, nact, (na_act, nb_act), rot=to_mo)
             if nact <= 4:
                 e2 = fock_lowest(w_h0, hsym, w_chol, nact, (na_act, nb_act))
                 if not abs(e2 - e_fci_w) <= 1e-9 * max(1.0, abs(e2)):
